@@ -701,7 +701,7 @@ func TestDerivedKeys(t *testing.T) {
 		t.Fatal(err)
 	}
 	defer nat_.Close()
-	n := run.Pick(400, 20000)
+	n := run.Pick(2500, 20000)
 	rng := run.Rand("keys")
 	lookups := func(res *cplane.Result, m string) [][]byte {
 		var o [][]byte
@@ -854,7 +854,7 @@ func TestKeysEndToEnd(t *testing.T) {
 	}
 	defer nat_.Close()
 	rng := run.Rand("e2e")
-	n := run.Pick(120, 3000)
+	n := run.Pick(600, 3000)
 	hit := func(res *cplane.Result, m string) (looked, found bool, key []byte) {
 		for _, a := range res.Log {
 			if a.Map == m && a.Op == 'l' {
